@@ -38,6 +38,9 @@ def run(tier, seed, scale):
         Phase("rel-countrace", "c12", "rel", 10000 if q else 100000, procs=2 if q else 4, args=["--mode", "countrace"], min_nontrivial=1000),
         Phase("dbg-hot", "c12", "dbg", 30000 if q else 300000, procs=3 if q else 6, min_nontrivial=5000),
         Phase("tsan", "c12", "tsan", 4500 if q else 60000, procs=3 if q else 8, timeout=1500, min_nontrivial=500),
+        # publication rounds: fresh container, inserters + readers with no harness synchronisation inside the round (see harness, mode "pub")
+        Phase("tsan-pub", "c12", "tsan", 60000 if q else 600000, procs=3 if q else 8, args=["--mode", "pub"], timeout=1500, min_nontrivial=10000),
+        Phase("rel-pub", "c12", "rel", 200000 if q else 2000000, procs=2 if q else 4, args=["--mode", "pub"], min_nontrivial=10000),
     ]
     if not q:
         phases.append(Phase("asan", "c12", "asan", 150000, procs=6, timeout=1500, min_nontrivial=20000))
@@ -48,6 +51,7 @@ def run(tier, seed, scale):
         phases.append(Phase("rel-4threads", "c12", "rel", 300000, procs=4, args=["--threads", "4"]))
         phases.append(Phase("rel-forced-levels", "c12", "rel", 200000, procs=2, args=["--mode", "forced", "--threads", "4"]))
         phases.append(Phase("tsan-countrace", "c12", "tsan", 8000, procs=2, args=["--mode", "countrace"], timeout=1500))
+        phases.append(Phase("asan-pub", "c12", "asan", 400000, procs=4, args=["--mode", "pub"], timeout=1500))
     run_phases(chk, phases, seed, scale)
     h = chk.hooks
     n = lambda i: h.get(str(i), {}).get("n", 0)
@@ -73,6 +77,7 @@ def run(tier, seed, scale):
     for kname in ("concurrent_unordered_map", "concurrent_unordered_set", "concurrent_unordered_multimap", "concurrent_unordered_multiset",
                   "concurrent_map", "concurrent_set", "concurrent_multimap", "concurrent_multiset", "skip_list_set[forced levels]", "skip_list_multiset[forced levels]"):
         chk.require(g("kind_" + kname) > 5000 * f, "only %d scenarios on %s" % (g("kind_" + kname), kname))
+    chk.require(g("pub_rounds") > 100000 * f and g("pub_concurrent_reads") > 5000000 * f, "publication rounds %d, reads concurrent with inserts %d" % (g("pub_rounds"), g("pub_concurrent_reads")))
     for sz in ("0", "1", "2", "3", "n"):
         chk.require(g("parallel_range_size_" + sz) > 100, "parallel_for over range() of a container with %s elements ran only %d times" % (sz, g("parallel_range_size_" + sz)))
     h165 = h.get("165", {}).get("h", [0] * 8)
@@ -98,6 +103,8 @@ def run(tier, seed, scale):
         "traversals": g("traversals"),
         "traversals_overlapping_an_insert": g("traversals_overlapping_an_insert"),
         "traversal_must_see_pairs_checked": g("traversal_must_see_elements"),
+        "publication_rounds(fresh container, unsynchronised inserters+readers)": g("pub_rounds"),
+        "publication_round_insert_attempts/successes/concurrent_reads": [g("pub_insert_attempts"), g("pub_successful_inserts"), g("pub_concurrent_reads")],
         "operations": g("ops"),
         "rounds": g("rounds"),
         "quiescent_mutation_rounds": g("quiescent_mutation_rounds"),
